@@ -9,6 +9,8 @@ RULE = ('seeded random resource trees (depth <= 4, identifier names incl. keywor
         'further changes of the source map, more snapshots; the snapshot is probed with get() over the '
         'whole alphabet to depth 4 after every attempt to change it.  Non-trivial: a snapshot was taken and '
         'read at least once.')
+RULE += ('  Maps with a key delimiter other than "/" (subclass / instance attribute) holding names that contain '
+         '"/"; handles and maps with value equality / unhashable / falsy.')
 ASSUMPTIONS = ['no name equals a member of StaticResourceMap (get, _handle_names, __dunder__ names): the '
                'property excludes them; such accesses are answered `unmodelled` on both sides',
                'a path is a chain of single names (the snapshot has no composite-key lookup)']
